@@ -16,7 +16,8 @@ PROP_MODULES = {
     "C13": ["contracts.c13"],
     "C14": ["contracts.c14", "contracts.c14_bounded", "contracts.c08"],
     "C07": ["contracts.c07", "contracts.c07_bounded", "contracts.c10"],
-    "C08": ["contracts.c08"],
+    "C08": ["contracts.c08", "contracts.c15"],
+    "C15": ["contracts.c15", "contracts.c13", "contracts.c08", "contracts.c10", "contracts.c17", "contracts.c14"],
     "C16": ["contracts.c16", "contracts.c16_bounded"],
     "C10": ["contracts.c10"],
     "C17": ["contracts.c17", "contracts.c05", "contracts.c17_bounded"],
